@@ -390,6 +390,9 @@ def _is_list_subclass(cls):
     return any(getattr(b, 'dotted', '') == 'builtins.list' for b in cls.mro() if not isinstance(b, ClassInfo))
 
 
+_NOFIRST = object()
+
+
 def is_abstract(v):
     return isinstance(v, AbstractValue)
 
@@ -1773,12 +1776,12 @@ class Interp:
         self.call_stack_node = e
         return self.call(f, args, kwargs, e)
 
-    def comp_loop(self, gens, frame, emit, i=0):
+    def comp_loop(self, gens, frame, emit, i=0, first=_NOFIRST):
         if i == len(gens):
             emit()
             return
         g = gens[i]
-        it = self.eval(g.iter, frame)
+        it = first if (i == 0 and first is not _NOFIRST) else self.eval(g.iter, frame)
         for x in self.iterate(it):
             self.assign(g.target, x, frame)
             if all(self.truth(self.eval(c, frame)) for c in g.ifs):
@@ -1787,12 +1790,26 @@ class Interp:
     def ex_ListComp(self, e, frame):
         out = []
         fr = Frame(frame.func, frame.modname, {}, parent=frame, cls=frame.cls)
-        self.comp_loop(e.generators, fr, lambda: out.append(self.eval(e.elt, fr)))
+        first = self.eval(e.generators[0].iter, fr)
+        if isinstance(first, range) and len(first) > 100000 or isinstance(first, CodePoints):
+            # a pass over (a large part of) the code space is not unrolled
+            g = e.generators[0]
+            if isinstance(first, range) and len(e.generators) == 1 and not g.ifs and isinstance(g.target, ast.Name) \
+                    and isinstance(e.elt, ast.Call) and isinstance(e.elt.func, ast.Name) and e.elt.func.id == 'chr' \
+                    and len(e.elt.args) == 1 and isinstance(e.elt.args[0], ast.Name) and e.elt.args[0].id == g.target.id:
+                return CodePoints(first.start, first.stop)
+            if isinstance(first, CodePoints):
+                cats = _is_unicode_category_comp(e, lambda x: self.eval(x, frame))
+                if cats is not None:
+                    return UnicodeCategorySet(cats)
+            return Unknown('comprehension over %r' % (first,))
+        self.comp_loop(e.generators, fr, lambda: out.append(self.eval(e.elt, fr)), first=first)
         return out
 
     def ex_GeneratorExp(self, e, frame):
         # evaluated eagerly; the result is list-like everywhere, and next() consumes it from the front
-        return GenList(self.ex_ListComp(e, frame))
+        r = self.ex_ListComp(e, frame)
+        return GenList(r) if isinstance(r, list) else r
 
     def ex_SetComp(self, e, frame):
         cats = _is_unicode_category_comp(e, lambda x: self.eval(x, frame))
@@ -1800,7 +1817,8 @@ class Interp:
             if self._spent_generator(e.generators[0].iter, frame):
                 return set()        # a one-shot generator that an earlier statement of the module has already run through
             return UnicodeCategorySet(cats)
-        return set(self.ex_ListComp(e, frame))
+        r = self.ex_ListComp(e, frame)
+        return set(r) if isinstance(r, list) else r
 
     def _spent_generator(self, it, frame):
         """`it` names a module-level generator expression and this is not the first place of the module (in source
@@ -1890,6 +1908,16 @@ class UnicodeCategorySet(AbstractValue):
 
     def __repr__(self):
         return 'UnicodeCategorySet(%s)' % (self.prefix or sorted(self.categories))
+
+
+class CodePoints(AbstractValue):
+    """(chr(i) for i in range(lo, hi)) over a large part of the code space: never unrolled."""
+
+    def __init__(self, lo, hi):
+        self.lo, self.hi = lo, hi
+
+    def __repr__(self):
+        return 'CodePoints(%#x, %#x)' % (self.lo, self.hi)
 
 
 class UnionSet(AbstractValue):
@@ -2007,6 +2035,10 @@ class PyMethod:
                     return list(getattr(recv, name)())
                 if name == 'extend':
                     recv.extend(interp.iterate(a[0]))
+                    return None
+                if name == 'update' and isinstance(recv, set) and any(is_abstract(x) and not hasattr(x, 'abs_iter') for x in a):
+                    # members that are not enumerated (a class of code points): the concrete part stays as it is
+                    interp.note('set-update-not-enumerated', getattr(node, 'lineno', 0))
                     return None
                 if name == 'sort' and isinstance(recv, list):
                     recv[:] = interp.sort_values(list(recv), kwargs.get('key'), kwargs.get('reverse', False))
